@@ -81,8 +81,8 @@ Qed.
 
 (* ---------- the witnesses ---------- *)
 
-Definition lost_leave_cfg : option config := run lost_leave_trace (init_config ex_stored ex_owner ex_user).
-Definition stale_unload_cfg : option config := run stale_unload_trace (init_config ex_stored ex_owner ex_user).
+Definition lost_leave_cfg : option config := run lost_leave_trace (init_config ex_stored ex_owner ex_user ex_chan).
+Definition stale_unload_cfg : option config := run stale_unload_trace (init_config ex_stored ex_owner ex_user ex_chan).
 
 Ltac stuck_tac :=
   let l := fresh "l" in let c' := fresh "c'" in let Hint := fresh "Hint" in let Hs := fresh "Hs" in
@@ -93,7 +93,7 @@ Ltac stuck_tac :=
   try (destruct s as [|[|[|[|s]]]]; simpl in Hs; discriminate Hs).
 
 Lemma lost_leave_refutes : exists c,
-  run lost_leave_trace (init_config ex_stored ex_owner ex_user) = Some c /\
+  run lost_leave_trace (init_config ex_stored ex_owner ex_user ex_chan) = Some c /\
   stuck c /\ c_tunreg c <> [] /\ s_inflight (c_sess c 1) = 1 /\ s_term (c_sess c 1) = false.
 Proof.
   eexists. split; [vm_compute; reflexivity|]. split; [|simpl; repeat split; discriminate].
@@ -104,7 +104,7 @@ Qed.
 Definition stale_unload_end_trace : list label := stale_unload_trace ++ [TopicExit 0].
 
 Lemma stale_unload_refutes : exists c,
-  run stale_unload_end_trace (init_config ex_stored ex_owner ex_user) = Some c /\
+  run stale_unload_end_trace (init_config ex_stored ex_owner ex_user ex_chan) = Some c /\
   stuck c /\ quiescent c /\ s_inflight (c_sess c 1) = 1 /\ s_term (c_sess c 1) = false.
 Proof.
   eexists. split; [vm_compute; reflexivity|]. split; [|simpl; unfold quiescent; simpl; repeat split].
